@@ -673,4 +673,45 @@ theorem aliased_method_use_after_free :
     (run [.nothing, .del 1] St.init [.construct 0 1 1, .copy 0 1, .delete 0 1, .method 1]).uaf = true := by
   decide
 
+/-! ## 7. The copy helper stays inside both buffers -/
+
+theorem copyCount_le_dest (m n e : Nat) : copyCount m n e ≤ m * e := by
+  unfold copyCount; split
+  · exact Nat.le_refl _
+  · exact Nat.mul_le_mul_right e (by omega)
+
+theorem copyCount_le_src (m n e : Nat) : copyCount m n e ≤ n * e := by
+  unfold copyCount; split
+  · exact Nat.mul_le_mul_right e (by omega)
+  · exact Nat.le_refl _
+
+/-- **copy helper bounds**: for every destination of `m` elements and every vector of `n` elements
+    of `e` bytes (shorter, equal, longer, empty), `ShroudCopyArray` reads only `src[0, k)` and writes
+    only `dest[0, k)` with `k = min(m, n) * e`: the call is defined, the destination keeps its length,
+    its first `k` bytes are the vector's first `k` bytes and every other byte is unchanged -/
+theorem copyArray_in_bounds (dest src : List Nat) (m n e : Nat)
+    (hd : dest.length = m * e) (hs : src.length = n * e) :
+    ∃ r, copyArray dest src m n e = some r ∧ r.length = dest.length ∧
+      r.take (copyCount m n e) = src.take (copyCount m n e) ∧
+      r.drop (copyCount m n e) = dest.drop (copyCount m n e) := by
+  have h1 := copyCount_le_dest m n e
+  have h2 := copyCount_le_src m n e
+  refine ⟨src.take (copyCount m n e) ++ dest.drop (copyCount m n e), ?_, ?_, ?_, ?_⟩
+  · unfold copyArray memcpy
+    rw [if_pos ⟨by omega, by omega⟩]
+  · simp [List.length_append, List.length_take, List.length_drop]; omega
+  · rw [List.take_append_of_le_length (by simp [List.length_take]; omega)]
+    simp [List.take_take]
+  · rw [List.drop_append_of_le_length (by simp [List.length_take]; omega)]
+    simp
+
+example : copyArray [9, 9, 9, 9, 9, 9] [1, 2, 3, 4, 5, 6, 7, 8, 9, 10] 3 5 2 = some [1, 2, 3, 4, 5, 6] := by decide
+example : copyArray [9, 9, 9, 9] [] 4 0 1 = some [9, 9, 9, 9] := by decide
+
+/-- sensitivity witness: with the clamp reversed (max instead of min) a shorter destination is
+    overrun and a longer destination makes the helper read past the vector -/
+theorem copy_with_max_out_of_bounds :
+    memcpy [9, 9, 9] [1, 2, 3, 4, 5] (copyCountMax 3 5 1) = none ∧
+    memcpy [9, 9, 9, 9, 9, 9, 9, 9] [1, 2, 3, 4, 5] (copyCountMax 8 5 1) = none := by decide
+
 end Shroud.Capsule
